@@ -42,6 +42,17 @@ def gen(chk, tier):
     # private-key test
     vals = [0, 1, 2, N - 3, N - 2, N - 1, N, N + 1, T256 - 1, 1 << 255, (1 << 248) - 1, 1 << 248]
     vals += [rng.getrandbits(256) for _ in range(10 if q else 3000)]
+    # word-structured values on both sides of the bound (see sm2gen.limb_structured)
+    from ..sm2gen import limb_structured
+    st = limb_structured(rng, 12 if q else 600)
+    vals += [v for v in st] + [N - 2 + v for v in limb_structured(rng, 12 if q else 600, maxbits=224)]
+    for v in st[:6 if q else 100]:
+        g.one("genkey_structured", "sm2.genkey", nilreader=False, script=sm2gen.script_of([v, rscalar(rng), rscalar(rng)]))
+        g.one("derive_structured", "sm2.derivepublic", priv=b32(v))
+    for v in limb_structured(rng, 6 if q else 100, maxbits=224):
+        g.one("genkey_structured_over", "sm2.genkey", nilreader=False,
+              script=sm2gen.script_of([N - 2 + v, rscalar(rng), rscalar(rng)]))
+        g.one("derive_structured_over", "sm2.derivepublic", priv=b32(N - 2 + v))
     for v in vals:
         g.one("testpriv_32", "sm2.testpriv", priv=b32(v))
     for L in (0, 1, 16, 31):
@@ -76,6 +87,16 @@ def gen(chk, tier):
     for (x, y) in xs:
         g.one("curve_small_x", "sm2.checkoncurve", x=b32(x), y=b32(y))
         g.one("curve_noncanonical", "sm2.checkoncurve", x=b32(x + P), y=b32(y))
+    nk = 0
+    for D in limb_structured(rng, 60 if q else 1500, maxbits=224):
+        yD = ec.lift_x(D - 1)
+        if yD is None:
+            continue
+        g.one("curve_structured_x", "sm2.checkoncurve", x=b32(D - 1), y=b32(yD))
+        g.one("curve_structured_noncanonical", "sm2.checkoncurve", x=b32(D - 1 + P), y=b32(yD))
+        nk += 1
+        if nk >= (8 if q else 300):
+            break
     y0 = ec.lift_x(0)
     if y0 is not None:
         g.one("curve_x_zero", "sm2.checkoncurve", x=b32(0), y=b32(y0))
